@@ -32,7 +32,10 @@ MODULE = "chan/Sinr.tla"
 TOL = 1e-9
 DEVS = ["OwnStreamNotSubtracted", "NoiseNotFiltered", "ExtIntPowerIgnored", "JpRowsOfOtherUser",
         "PathlossIgnored", "ConjMissing", "SolverScalesByP", "ListPrecodersScaledAlongStreams",
-        "PowerNoneKeepsCaches", "PlExpansionReusedOnEqualShape"]
+        "PowerNoneKeepsCaches", "PlExpansionReusedOnEqualShape", "SolverIgnoresExtInt"]
+# OBSERVED in /repo (audit gap 1): IASolverBaseClass.calc_SINR / _in_dB / calc_sum_capacity leave the external interference
+# out although the solver's own calc_Q contains it (pe = 1).  Proposed repair: notes/fixes/C11-solver-sinr-extint.patch
+F_SOLVER_EXT = "SolverSinrIgnoresExtInt"
 # id of the finding the list sub-check maps to (fixed in /repo: 15af8cd)
 F_LIST = "ListPrecodersScaledAlongStreams"
 INVARIANTS = ["TypeOK", "CachesFresh", "NonNegative", "ScaleInvariant", "QHermitianPSD", "QIsSumOfLinks",
@@ -52,7 +55,7 @@ CFG_K2 = [
     _cfg(2, [2, 2], [2, 2], [2, 2], amps=1),                # 2 plain, solver, two streams (zero forcing of own streams)
     _cfg(2, [2, 1], [1, 2], [1, 1]),                        # 3 plain, Nr # Nt
     _cfg(2, [2, 2], [2, 2], [2, 1], amps=1),                # 4 plain, unequal stream counts
-    _cfg(2, [2, 2], [2, 2], [2, 1], nte=[1]),               # 5 external interference, one source
+    _cfg(2, [2, 2], [2, 2], [2, 1], nte=[1], amps=1),       # 5 external interference, one source (solver with two streams)
     _cfg(2, [1, 2], [2, 1], [1, 1], nte=[1, 2]),            # 6 two external sources with 1 and 2 antennas
     _cfg(2, [2, 2], [2, 2], [2, 1], jp=True),               # 7 joint processing
     _cfg(2, [2, 1], [1, 2], [1, 1], nte=[2], jp=True),      # 8 joint processing + external interference
@@ -79,14 +82,23 @@ CFG_ZF = [
     _cfg(2, [2, 2], [2, 2], [2, 2], jp=True, amps=3, zf=True),           # 23 two streams each: block-diagonalising precoders + zero-forcing filters
     _cfg(2, [2, 2], [4, 4], [2, 2], amps=3, zf=True),                    # 24 the same on the interference channel (thorough)
 ]
-CFGS = CFG_K2 + CFG_K3 + CFG_ZF
+# other dimensions: one user, four users, three receive antennas / three streams
+CFG_DIM = [
+    _cfg(1, [2], [2], [2]),                                              # 25 a single user: own streams and noise only
+    _cfg(1, [3], [3], [3], nte=[1], amps=1),                             # 26 single user, 3 x 3, three streams, external source
+    _cfg(4, [2, 1, 2, 1], [1, 2, 2, 1], [1, 1, 1, 1], amps=1),           # 27 four users
+    _cfg(2, [3, 3], [3, 3], [3, 2], amps=1),                             # 28 three antennas, three streams (solver: (rel) only)
+    _cfg(2, [3, 2], [2, 2], [3, 1], jp=True, amps=1),                    # 29 joint processing, three streams
+    _cfg(4, [1, 2, 1, 2], [1, 1, 2, 1], [1, 2, 1, 1], nte=[1], jp=True, amps=1),   # 30 four users, JP, external source
+]
+CFGS = CFG_K2 + CFG_K3 + CFG_ZF + CFG_DIM
 # (first configuration, last configuration, case numbers 1..n): one TLC process per entry (and per 100 cases)
-QUICK_COUNTS = [(1, 2, 42), (3, 4, 34), (5, 6, 38), (7, 9, 30), (18, 21, 20), (23, 23, 36)]
+QUICK_COUNTS = [(1, 4, 38), (5, 9, 32), (18, 23, 22), (25, 30, 10)]
 QUICK_CAPVEC = 40           # capacity vectors 1..n
 THOROUGH_CAPVEC = 400
 THOROUGH_COUNTS = [(1, 1, 160), (2, 2, 160), (3, 3, 120), (4, 4, 120), (5, 5, 160), (6, 6, 120), (7, 7, 160), (8, 8, 120),
                    (9, 9, 100), (10, 10, 600), (11, 11, 400), (12, 12, 300), (13, 13, 400), (14, 14, 300), (15, 15, 400),
-                   (16, 16, 300), (17, 17, 300), (18, 19, 200), (20, 22, 150), (23, 23, 300), (24, 24, 150)]
+                   (16, 16, 300), (17, 17, 300), (18, 19, 200), (20, 22, 150), (23, 23, 300), (24, 24, 150), (25, 27, 150), (28, 30, 150)]
 
 # Chains: one channel object and one solver object serve the consecutive cases.  The partitions of a chain have
 # the same number of users / sources and the same antenna TOTALS but different per-user counts (a stale per-antenna
@@ -106,18 +118,31 @@ CHAINS = [
                 _cfg(3, [2, 2, 1], [1, 2, 2], [2, 1, 1], nte=[1], jp=True, amps=1)], ops=_OPS_CHAN),            # 7 K = 3 JP + ext
 ]
 # (first chain configuration, last, chain numbers 0..n-1)
-QUICK_CHAINS = [(1, 1, 12), (2, 5, 5)]
+QUICK_CHAINS = [(1, 5, 7)]
 THOROUGH_CHAINS = [(1, 1, 54), (2, 2, 30), (3, 3, 30), (4, 4, 30), (5, 5, 54), (6, 6, 54), (7, 7, 30)]
 
 # where each deviation flag is exposed: ("star", clo, chi) or ("chain", hlo, hhi)
-DEV_WHERE = {"OwnStreamNotSubtracted": ("star", 1, 1), "NoiseNotFiltered": ("star", 1, 1), "ExtIntPowerIgnored": ("star", 5, 6),
-             "JpRowsOfOtherUser": ("star", 7, 8), "PathlossIgnored": ("star", 1, 3), "ConjMissing": ("star", 1, 1),
-             "SolverScalesByP": ("star", 1, 2), "ListPrecodersScaledAlongStreams": ("star", 2, 2),
-             "PowerNoneKeepsCaches": ("chain", 1, 1), "PlExpansionReusedOnEqualShape": ("chain", 1, 1)}
+# where each deviation flag is exposed: ("star", first cfg, last cfg, cases 1..n) or ("chain", first, last, chains 0..n)
+DEV_WHERE = {"OwnStreamNotSubtracted": ("star", 1, 1, 6), "NoiseNotFiltered": ("star", 1, 1, 10), "ExtIntPowerIgnored": ("star", 5, 6, 8),
+             "JpRowsOfOtherUser": ("star", 7, 8, 6), "PathlossIgnored": ("star", 1, 1, 8), "ConjMissing": ("star", 1, 1, 8),
+             "SolverScalesByP": ("star", 1, 1, 10), "ListPrecodersScaledAlongStreams": ("star", 2, 2, 16),
+             "SolverIgnoresExtInt": ("star", 6, 6, 10),
+             "PowerNoneKeepsCaches": ("chain", 1, 1, 5), "PlExpansionReusedOnEqualShape": ("chain", 1, 1, 5)}
+# deviations refuted together in one TLC run (-continue), one initial state per deviation
+DEV_GROUPS = [["OwnStreamNotSubtracted", "NoiseNotFiltered", "ExtIntPowerIgnored", "JpRowsOfOtherUser", "PathlossIgnored"],
+              ["ConjMissing", "SolverScalesByP", "ListPrecodersScaledAlongStreams", "SolverIgnoresExtInt"],
+              ["PowerNoneKeepsCaches", "PlExpansionReusedOnEqualShape"]]
 
 
 def model(clo, chi, lo, hi, seed, dev=(), emit=True, hlo=1, hhi=0, vlo=1, vhi=0):
-    defs = {"Cfgs": tlc.tla(CFGS), "Chains": tlc.tla(CHAINS), "Dev": tlc.tla({d: (d in dev) for d in DEVS})}
+    # DevTry: the deviations tried by this run (each in its own initial state), with the configurations they are tried on
+    tries = []
+    for d in dev:
+        kind, a, b, cnt = DEV_WHERE[d]
+        cfgs = "{" + ", ".join(str(i) for i in range(a, b + 1)) + "}" if kind == "star" else "{}"
+        chains = "{" + ", ".join(str(i) for i in range(a, b + 1)) + "}" if kind == "chain" else "{}"
+        tries.append(f'[name |-> "{d}", cfgs |-> {cfgs}, chains |-> {chains}, hi |-> {cnt}]')
+    defs = {"Cfgs": tlc.tla(CFGS), "Chains": tlc.tla(CHAINS), "DevTry": "{" + ", ".join(tries) + "}"}
     cfg = tlc.cfg_text(constants={"CLo": str(clo), "CHi": str(chi), "HLo": str(hlo), "HHi": str(hhi), "VLo": str(vlo), "VHi": str(vhi),
                                   "Lo": str(lo), "Hi": str(hi), "Seed": str(seed)},
                        defs=defs, invariants=INVARIANTS, action_constraints=["Emit"] if emit else [])
@@ -224,7 +249,7 @@ class _Solver:
 NOISE_VALUE = {"none": None, "zero": Fraction(0), "half": Fraction(1, 2), "one": Fraction(1), "two": Fraction(2)}
 IMPLEMENTED_LAWS = {"ArgumentsUnchanged", "EarlierResultsUnchanged", "ResultsAreCopies", "QueryIsPure",
                     "RepresentationIrrelevant", "BystanderUnaffected", "RejectedChangesNothing", "AliasCoherent",
-                    "CapacityPermutationInvariant", "CapacityAdditive"}
+                    "CapacityPermutationInvariant", "CapacityAdditive", "SolveSelfConsistent", "RandomizeThenQueryCoherent"}
 # (set_receive_filters used to clear the filters before rejecting bad arguments; repaired in /repo 4cafe15)
 CHECK_REJECTED_RECEIVE_FILTERS = True
 
@@ -376,7 +401,7 @@ def build_channel(inp, gain=1.0, keep=None, noise_factor=1.0):
 
 
 def solver_applies(inp):
-    return (not inp["jp"]) and len(inp["nte"]) == 0
+    return not inp["jp"]
 
 
 def _expect_raise(what, f, bad):
@@ -571,6 +596,11 @@ def compare(sess, case, light=False):
             n[0] += 1
             if g.shape == Q[k].shape and not np.allclose(g, g.conj().T, rtol=0, atol=TOL):
                 bad.append(f"{tag}{qname}[user {k}] is not Hermitian")
+    if ext and not light:
+        got = guarded("calc_cov_matrix_extint_without_noise", ch.calc_cov_matrix_extint_without_noise, float(pe))
+        if got is not None:
+            for k in range(K):
+                cmp(f"calc_cov_matrix_extint_without_noise[user {k}]", got[k], _mat(out["xcov"][k]))
     # internal: the per-stream covariance the SINR is computed from (anchored mechanism)
     for k in range(K if not (light or lean) else 0):
         def bkl():
@@ -592,12 +622,15 @@ def compare(sess, case, light=False):
     if zde_ok[0] and ex_i < 2:
         ex_i += 2          # infinite SINRs: take a gain factor (irrational amplitudes: the denominator becomes rounding noise)
     ex_c, ex_gain = [(1e-9, 1.0), (1e9, 1.0), (1.0, 1e-17 * ga2), (1.0, 1e17 * ga2)][ex_i]
-    for label, c, gain in ((("", sc, 1.0), (" (extreme)", sc * ex_c, ex_gain)) if not light else ()):
+    # one factor PER STREAM (column l of U_k x scs[k][l]); in the extreme setting alternately x ex_c and x 1 / ex_c
+    scs = [[_g(x) for x in row] for row in inp["scs"]]
+    for label, xc, gain in ((("", 1.0, 1.0), (" (extreme)", ex_c, ex_gain)) if not light else ()):
         ch2 = ch if gain == 1.0 else guarded("channel with gain %g" % gain, lambda: build_channel(inp, gain))
         if ch2 is None:
             continue
-        what = f"{name} with U x {c!r}, gain x {gain:g}{label}"
-        got = guarded(what, getattr(ch2, jname), fullF, _objarr([c * u for u in U]), **pekw)
+        cols = [[scs[k][l] * (xc if (k + l) % 2 == 0 else 1.0 / xc) for l in range(ns[k])] for k in range(K)]
+        what = f"{name} with the columns of U x {cols!r:.120}, gain x {gain:g}{label}"
+        got = guarded(what, getattr(ch2, jname), fullF, _objarr([U[k] * np.array(cols[k])[None, :] for k in range(K)]), **pekw)
         if got is not None:
             cmp_rows(what, got, sinr)
         if gain != 1.0:
@@ -648,9 +681,30 @@ def compare(sess, case, light=False):
         if got is not None:
             cmp("calc_shannon_sum_capacity", got, cap, cap_huge)
 
-    # --- the IA solver base class (plain interference channel only)
+    # --- the IA solver base class.  On a channel with external sources the solver's SINR must contain them with
+    # pe = 1 (the power its own calc_Q uses); mismatches of the solver's SINR / dB / capacity THERE have the signature
+    # of finding SolverSinrIgnoresExtInt.
     sol = out["sol"]
     s = sess.solver
+    solQ = [_mat(sol["q1"][k]) for k in range(K)] if (sol["ok"] and sol["q1"]) else Q
+
+    def to_finding(mark):
+        if ext:
+            known.extend((F_SOLVER_EXT, b) for b in bad[mark:])
+            del bad[mark:]
+
+    if (not sol["ok"]) and sol["inv"] and s is not None and not light:
+        # (rel) the compensated filter exists but the exact value is not modelled (three streams): the two
+        # implementations must still agree and the capacity must be the sum of log2(1 + SINR)
+        mark = len(bad)
+        a = guarded("solver.calc_SINR", s.calc_SINR)
+        b = guarded("channel.calc_SINR(solver.full_F, solver.full_W)", lambda: s._multiUserChannel.calc_SINR(s.full_F, s.full_W))
+        if a is not None and b is not None:
+            cmp_rows("(rel) solver.calc_SINR vs channel.calc_SINR(solver.full_F, solver.full_W)", a, [list(np.asarray(x, dtype=float)) for x in b])
+            c2 = guarded("solver.calc_sum_capacity", s.calc_sum_capacity)
+            if c2 is not None:
+                cmp("(rel) solver.calc_sum_capacity vs sum log2(1 + SINR)", c2, float(np.sum(np.log2(1.0 + np.hstack(list(b))))))
+        to_finding(mark)
     if sol["ok"] and s is not None:
         ssinr = [[float(_ratinf(x)) for x in row] for row in sol["sinr"]]
         sq = [[_ratinf(x) for x in row] for row in sol["sinr"]]
@@ -661,15 +715,18 @@ def compare(sess, case, light=False):
                 bad.append(f"{tag}solver.P reports {np.asarray(s.P).tolist()} expected {P.tolist()}")
 
         def solver_checks(s, label, gain=1.0, light=False):
+            mark = len(bad)
             got = guarded("solver.calc_SINR" + label, s.calc_SINR)
             if got is not None:
                 cmp_rows("solver.calc_SINR" + label, got, ssinr)
+            to_finding(mark)
             for k in range(K):
                 got = guarded("solver.calc_Q" + label, s.calc_Q, k)
                 if got is not None:
-                    cmp(f"solver.calc_Q[user {k}]{label}", np.asarray(got) / gain, Q[k])
+                    cmp(f"solver.calc_Q[user {k}]{label}", np.asarray(got) / gain, solQ[k])
             if light:
                 return
+            mark = len(bad)
             got = guarded("solver.calc_SINR_in_dB" + label, s.calc_SINR_in_dB)
             if got is not None:
                 want = [[(math.inf if q == math.inf else 10.0 * (math.log10(q.numerator) - math.log10(q.denominator)) if q > 0
@@ -679,6 +736,7 @@ def compare(sess, case, light=False):
             if got is not None:
                 scap, scap_huge = _cap_want([1 + q for q in _flat(sq)])
                 cmp("solver.calc_sum_capacity" + label, got, scap, scap_huge)
+            to_finding(mark)
             # the two implementations agree: the channel object fed with the solver's full filters
             got = guarded("channel.calc_SINR(solver.full_F, solver.full_W)" + label,
                           lambda: s._multiUserChannel.calc_SINR(s.full_F, s.full_W))
@@ -687,7 +745,7 @@ def compare(sess, case, light=False):
             # (rel) remaining interference: smallest Ns eigenvalues of Q over its trace, from exact trace / determinant
             for k in range(K):
                 tr, det = _rat(out["qtr"][k]), _rat(out["qdet"][k])
-                if tr == 0:
+                if tr == 0 or (ext and pe != 1) or (nr[k] > 2 and ns[k] < nr[k]):
                     continue
                 if ns[k] >= nr[k]:
                     want = 1.0
@@ -718,7 +776,7 @@ def compare(sess, case, light=False):
             got = guarded("solver.calc_SINR (precoders / filters given as lists)", lambda: make(ch, F, U, lists=True).calc_SINR())
             if got is not None:
                 cmp_rows("solver.calc_SINR (precoders / filters given as lists)", got, ssinr)
-            known.extend(bad[mark:])
+            known.extend((F_SOLVER_EXT if ext else F_LIST, b) for b in bad[mark:])
             del bad[mark:]
             # W -> c*W (ordinary and extreme c) and the channel gain must not change the solver's SINR either
             chg = ch if ex_gain == 1.0 else guarded("channel with gain", lambda: build_channel(inp, ex_gain))
@@ -754,10 +812,30 @@ def compare(sess, case, light=False):
     if got is not None:
         cmp(f"{qname}[user 0] (asked again after writing into returned values)", got, Q[0])
     if sol["ok"] and s is not None:
+        mark = len(bad)
         got = guarded("solver.calc_SINR (asked again)", s.calc_SINR)
         if got is not None:
             cmp_rows("solver.calc_SINR (asked again after writing into returned values)", got,
                      [[float(_ratinf(x)) for x in row] for row in sol["sinr"]])
+        to_finding(mark)
+    # --- SolveSelfConsistent (rel): a REAL solver class on this channel
+    if out.get("cf") and inp["op"]["kind"] == "fresh" and nv:
+        from pyphysim.ia.algorithms import ClosedFormIASolver
+        try:
+            cfs = ClosedFormIASolver(ch)
+            cfs.solve(1, np.array([float(_rat(a) ** 2) for a in inp["pa"]]))
+            a = cfs.calc_SINR()
+            b = ch.calc_SINR(cfs.full_F, cfs.full_W)
+            c2 = cfs.calc_sum_capacity()
+        except np.linalg.LinAlgError:
+            a = None              # (degenerate eigen-structure of this integer channel: the closed form does not exist)
+        except Exception as ex:
+            a = None
+            n[0] += 1
+            bad.append(f"{tag}ClosedFormIASolver.solve / calc_SINR raised {type(ex).__name__}: {ex}")
+        if a is not None and np.all(np.isfinite(np.hstack(list(b)))):
+            cmp_rows("(rel) ClosedFormIASolver.calc_SINR vs channel.calc_SINR(its full_F, full_W)", a, [list(np.asarray(x, dtype=float)) for x in b])
+            cmp("(rel) ClosedFormIASolver.calc_sum_capacity vs sum log2(1 + SINR)", c2, float(np.sum(np.log2(1.0 + np.hstack(list(b))))))
     return n[0], bad, known
 
 
@@ -850,7 +928,71 @@ def solver_alias_probe(sess, step_case):
             bad.append(f"[alias probe: write into a matrix handed to the solver] raised {type(ex).__name__}: {ex}")
         m[0, 0] = old
     n, bad2, known = compare(sess, step_case, light=True)
+    if len(step_case["inp"]["nte"]) > 0:         # on a channel with external sources this relation fails for the reason of the finding
+        known = known + [(F_SOLVER_EXT, b) for b in bad]
+        bad = []
     return n + len(arrs), bad + ["[after undoing the write into the solver's matrices] " + b for b in bad2], known
+
+
+def randomize_probe(sess, case):
+    """RandomizeThenQueryCoherent (rel): randomize() on the same channel object (path loss and noise kept), then every
+    SINR / Q must be the first-principles value for the matrix the object reports (big_H, path loss included).
+    The first-principles sums are formed here, stream by stream, from that matrix."""
+    inp = case["inp"]
+    K, nr, nt, nte, ns, jp = inp["K"], inp["nr"], inp["nt"], inp["nte"], inp["ns"], inp["jp"]
+    ch = sess.ch
+    ext = len(nte) > 0
+    bad = []
+    try:
+        if ext:
+            ch.randomize(np.array(nr), np.array(nt), K, np.array(nte))
+        else:
+            ch.randomize(np.array(nr), np.array(nt), K)
+        big = np.array(ch.big_H, dtype=complex)
+        pa = [float(_rat(a)) for a in inp["pa"]]
+        F = [pa[k] * _mat(inp["F"][k]) for k in range(K)]
+        U = [_mat(inp["U"][k]) for k in range(K)]
+        pe = float(_rat(inp["pe"]))
+        nv = ch.noise_var or 0.0
+        cr = np.cumsum([0] + list(nr))
+        ct = np.cumsum([0] + list(nt))
+        T = int(ct[-1])
+        want, wantQ = [], []
+        for k in range(K):
+            Hk = big[cr[k]:cr[k + 1], :]
+            rx = [[(Hk[:, :T] if jp else Hk[:, ct[j]:ct[j + 1]]) @ F[j][:, d] for d in range(ns[j])] for j in range(K)]
+            extc = [Hk[:, T + e] for e in range(Hk.shape[1] - T)]
+            Qk = sum((np.outer(g, g.conj()) for j in range(K) if j != k for g in rx[j]), np.zeros((nr[k], nr[k]), dtype=complex))
+            Qk = Qk + pe * sum((np.outer(h, h.conj()) for h in extc), np.zeros((nr[k], nr[k]), dtype=complex))
+            if ch.noise_var is not None:
+                Qk = Qk + nv * np.eye(nr[k])
+            wantQ.append(Qk)
+            row = []
+            for l in range(ns[k]):
+                u = U[k][:, l]
+                sig = abs(np.vdot(u, rx[k][l])) ** 2
+                den = sum(abs(np.vdot(u, rx[j][d])) ** 2 for j in range(K) for d in range(ns[j]) if (j, d) != (k, l))
+                den += pe * sum(abs(np.vdot(u, h)) ** 2 for h in extc) + nv * np.vdot(u, u).real
+                row.append(sig / den if den > 0 else math.inf)
+            want.append(row)
+        kw = {"pe": pe} if ext else {}
+        got = (ch.calc_JP_SINR if jp else ch.calc_SINR)(_objarr(F), _objarr(U), **kw)
+        for k in range(K):
+            g = np.asarray(got[k], dtype=float)
+            w = np.array(want[k], dtype=float)
+            fin = np.isfinite(w)
+            okr = g.shape == w.shape and np.all(g[~fin] >= HUGE) and \
+                np.all(np.abs(g[fin] - w[fin]) <= np.maximum(1e-7, 1e-12 * (1 + w[fin])) * np.maximum(1.0, w[fin]))
+            if not okr:
+                bad.append(f"[after randomize() on the same object] (rel) {'calc_JP_SINR' if jp else 'calc_SINR'}[user {k}] {g.tolist()} "
+                           f"is not the first-principles value {w.tolist()} for the matrix big_H reports")
+            q = (ch.calc_JP_Q if jp else ch.calc_Q)(k, _objarr(F), **kw)
+            if not np.allclose(q, wantQ[k], rtol=1e-9, atol=1e-9):
+                bad.append(f"[after randomize() on the same object] (rel) {'calc_JP_Q' if jp else 'calc_Q'}[user {k}] differs from the "
+                           f"sum of the links' covariances for the matrix big_H reports")
+    except Exception as ex:
+        bad.append(f"[after randomize() on the same object] raised {type(ex).__name__}: {ex}")
+    return 2 * K, bad, []
 
 
 def run_capvec(case):
@@ -960,6 +1102,12 @@ def run_unit(unit):
                     res[id(leaf)] = (r1[0] + r2[0], r1[1] + r2[1], r1[2] + r2[2])
                 except Exception as ex:
                     res[id(leaf)] = (1, [f"alias probe after step {inp['step']} raised {type(ex).__name__}: {ex}"], [])
+    # RandomizeThenQueryCoherent: the chain ends with a randomize() on the same channel object
+    if steps and steps[-1]["inp"]["chain"] and id(steps[-1]) in res and len(res[id(steps[-1])]) == 3:
+        with np.errstate(all="ignore"):
+            r = randomize_probe(sess, steps[-1])
+        last = res[id(steps[-1])]
+        res[id(steps[-1])] = (last[0] + r[0], last[1] + r[1], last[2])
     outl = [res.get(id(c), (0, [], [])) for c in unit]
     outl[0] = tuple(outl[0]) + (_TOLERATED[0] - tol0,)      # tolerated ZeroDivisionErrors of the unit
     return outl
@@ -970,7 +1118,7 @@ def plan(tier):
     """TLC jobs: (label, clo, chi, lo, hi, hlo, hhi)"""
     jobs = []
     thorough = tier == "thorough"
-    nch = 8 if thorough else 3
+    nch = 8 if thorough else 2
     chunk = EXH_COUNT // nch
     for i in range(nch):
         jobs.append((f"exhaustive-1x1/{i}", 0, 0, i * chunk, (i + 1) * chunk - 1, 1, 0) +
@@ -1043,13 +1191,23 @@ def run(ctx):
         cfg, defs = model(clo, chi, lo, hi, seed, hlo=hlo, hhi=hhi, vlo=vlo, vhi=vhi)
         return tlc.run(MODULE, cfg, defs=defs, heap="1g")   # -coverage is prohibitively slow on the recursive matrix operators
 
-    def dev_job(dev):
-        kind, a, b = DEV_WHERE[dev]
-        if kind == "star":
-            cfg, defs = model(a, b, 1, 16, seed, dev=[dev], emit=False)
-        else:
-            cfg, defs = model(1, 0, 0, 8, seed, dev=[dev], emit=False, hlo=a, hhi=b)
-        return tlc.run(MODULE, cfg, defs=defs, heap="1g")
+    def dev_job(group):
+        """ONE TLC run (-continue) refutes every deviation of the group: each initial state fixes one deviation, tried on
+        its own configurations; a deviation is refuted when a violated invariant is reported in a behaviour with its name."""
+        import re
+        star = [DEV_WHERE[d] for d in group if DEV_WHERE[d][0] == "star"]
+        chain = [DEV_WHERE[d] for d in group if DEV_WHERE[d][0] == "chain"]
+        clo, chi = (min(w[1] for w in star), max(w[2] for w in star)) if star else (1, 0)
+        hlo, hhi = (min(w[1] for w in chain), max(w[2] for w in chain)) if chain else (1, 0)
+        cfg, defs = model(clo, chi, 0 if chain else 1, max(DEV_WHERE[d][3] for d in group), seed, dev=group, emit=False, hlo=hlo, hhi=hhi)
+        r = tlc.run(MODULE, cfg, defs=defs, heap="1g", continue_=True)
+        found = {}
+        for block in r.out.split("Error: Invariant ")[1:]:
+            inv = block.split(" ", 1)[0]
+            m = re.search(r'dv = "(\w+)"', block)
+            if m and m.group(1) != "none":
+                found.setdefault(m.group(1), inv)
+        return r, found
 
     # TLC processes run in threads (each single-worker); VERIF_PROCS throttles them on a shared machine
     nthreads = max(1, min(14, int(os.environ.get("VERIF_PROCS", "0") or 0) or 14))
@@ -1057,13 +1215,20 @@ def run(ctx):
     t_start = _time.time()
     with ThreadPoolExecutor(nthreads) as ex:
         futs = [ex.submit(tlc_job, j) for j in jobs]
-        dfuts = [(d, ex.submit(dev_job, d)) for d in DEVS]
+        dfuts = [ex.submit(dev_job, g) for g in DEV_GROUPS]
         runs = [f.result() for f in futs]
-        for d, f in dfuts:
-            r = f.result()
-            if not r.violated:
+        found = {}
+        dgen = dwall = 0
+        for f in dfuts:
+            dr, fnd = f.result()
+            found.update(fnd)
+            dgen += dr.generated
+            dwall += dr.wall
+        for d in DEVS:
+            if d not in found:
                 raise tlc.TlcError(f"deviation {d} is not detected by the invariants of Sinr.tla")
-            ctx.notes.setdefault("deviations_refuted_by_model", {})[d] = r.violated
+        ctx.notes["deviations_refuted_by_model"] = found
+        ctx.notes["deviation_runs"] = {"runs": len(DEV_GROUPS), "generated": dgen, "wall_s": round(dwall, 1)}
     cases = []
     per_family = {}
     for j, r in zip(jobs, runs):
@@ -1116,8 +1281,9 @@ def run(ctx):
                 chain_steps[k] = chain_steps.get(k, 0) + 1
             # a chain is replayed from its first step: the stored case is the prefix of the unit
             stored = {"unit": unit if inp["op"]["kind"] == "scribble" else unit[: unit.index(case) + 1]}
-            if known:
-                ctx.finding(F_LIST, f"case {inp['id']}: " + "; ".join(known[:2]), dict(stored, mismatches=known[:6]))
+            for fid in sorted({f for f, _ in known}):
+                texts = [t for f, t in known if f == fid]
+                ctx.finding(fid, f"case {inp['id']}: " + "; ".join(texts[:2]), dict(stored, mismatches=texts[:6]))
             if bad:
                 ctx.violation(f"case {inp['id']} (K={inp['K']} Nr={inp['nr']} Nt={inp['nt']} Ns={inp['ns']} "
                               f"ext={inp['nte']} jp={inp['jp']}): " + "; ".join(bad[:3]), dict(stored, mismatches=bad[:10]))
@@ -1150,7 +1316,8 @@ def replay(ctx, data):
     for case, r in zip(unit, res):
         ncmp, bad, known = r[:3]
         ctx.ok(key=str(case["inp"]["id"]))
-        if known:
-            ctx.finding(F_LIST, f"case {case['inp']['id']}: " + "; ".join(known[:2]), {"unit": unit, "mismatches": known[:6]})
+        for fid in sorted({f for f, _ in known}):
+            texts = [t for f, t in known if f == fid]
+            ctx.finding(fid, f"case {case['inp']['id']}: " + "; ".join(texts[:2]), {"unit": unit, "mismatches": texts[:6]})
         if bad:
             ctx.violation(f"case {case['inp']['id']}: " + "; ".join(bad[:3]), {"unit": unit, "mismatches": bad[:10]})
